@@ -1,8 +1,8 @@
 SPECIFICATION Spec
-CONSTANTS ZMax = 2
-          NoYGuard = FALSE
+CONSTANTS ZMax = 1
+          NoYGuard = TRUE
           XBandLeftOpen = FALSE
-          NMin = 1
+          NMin = 4
           N = 4
           GapMax = 2
           HMax = 2
@@ -10,6 +10,3 @@ CONSTANTS ZMax = 2
           HBMin = 1
           HBMax = 2
 INVARIANT ResultOk
-INVARIANT SelectedSeparated
-INVARIANT RemainingOutside
-INVARIANT RoundBound
